@@ -9,7 +9,8 @@ package main
 //	            previous one in exactly one ingredient (same call again, one content
 //	            byte, the length, string<->[]byte, algorithm / encoding / key / base /
 //	            bit size / reader); []byte arguments live in a caller buffer that is
-//	            reused for the next call and scribbled on in between; every returned
+//	            reused for the next call and scribbled on in between (a third of them
+//	            with the rest of that buffer as spare capacity); every returned
 //	            slice and string is KEPT and compared again with the standard library's
 //	            answer after later calls; returned slices are scribbled on by the
 //	            caller and the same call is made again; stream helpers are fed a
@@ -152,7 +153,7 @@ type hstate struct {
 	reader    int    // stream: kind of the healthy reader (0..8)
 	keyIsData bool   // Hmac: the very same slice is passed as key and as data (one call only)
 	fault     int    // stream: 0 none, 1..3 a faulty stream precedes the healthy one
-	place     int    // []byte arguments: 0 fresh copy, 1 caller buffer offset 0, 2 caller buffer random offset
+	place     int    // []byte arguments: 0 fresh copy, 1 caller buffer offset 0, 2 caller buffer random offset, 3 front part buf[off:off+n] of the caller buffer with the rest of it as spare capacity
 }
 
 type keptRes struct {
@@ -224,7 +225,7 @@ func (h *hist) fresh(fam famID) {
 	st.fam = fam
 	st.keyIsData = false
 	st.form = rng.Intn(8)
-	st.place = rng.Pick(0, 1, 1, 2)
+	st.place = rng.Pick(0, 1, 1, 2, 3, 3)
 	st.reader = rng.Intn(nReaders)
 	st.fault = rng.Pick(0, 0, 0, 1, 2, 3)
 	st.enc = rng.Intn(len(b64Encs))
@@ -402,7 +403,7 @@ func (h *hist) vary() string {
 			if st.fam == fIPv4 {
 				continue
 			}
-			st.place = (st.place + 1 + rng.Intn(2)) % 3
+			st.place = (st.place + 1 + rng.Intn(3)) % 4
 			st.form |= 1
 			return "argument-buffer"
 		}
@@ -421,6 +422,14 @@ func (h *hist) placeIn(arena, content []byte, mode int) (arg []byte, region []by
 	case mode == 1:
 		copy(arena, content)
 		return arena[0:n:n], arena[0:n]
+	case mode == 3:
+		// buf[off:off+n] as a program gets it from a read into a big buffer: the
+		// capacity reaches to the end of the caller's buffer (at least half of
+		// it), and all of it is the caller's to reuse afterwards
+		off := h.rng.Intn(len(arena)/2 - n + 1)
+		copy(arena[off:], content)
+		h.c.Add("history_arg_with_spare_capacity", 1)
+		return arena[off : off+n], arena[off:]
 	default:
 		off := h.rng.Intn(len(arena) - n)
 		copy(arena[off:], content)
